@@ -970,6 +970,8 @@ func (g *Gen) genFor(depth, d int) []Stmt {
 		g.frozen[s.Name]--
 		g.loops--
 		g.pop()
+		// a function called from the body may grow the table: bound the iteration count
+		body = append([]Stmt{&If{C: &Bin{Op: ">", A: &Var{Name: i}, B: num(12)}, Then: []Stmt{&Break{}}}}, body...)
 		return []Stmt{&GenFor{Xs: []string{i, v}, Es: []Expr{call("ipairs", g.ref(s))}, Body: body}}
 	case 1:
 		g.use("genfor-pairs-commutative")
